@@ -626,7 +626,7 @@ func ioLines(L *LState) int {
 	path := L.CheckString(1)
 	ud, err := newFile(L, nil, path, os.O_RDONLY, os.FileMode(0600), false, true)
 	if err != nil {
-		return 0
+		L.ArgError(1, err.Error())
 	}
 	L.Push(L.NewClosure(ioLinesIter, L.Get(UpvalueIndex(1)), ud))
 	return 1
